@@ -1,6 +1,96 @@
-"""C03 B layer: the generated-project shadow (shadows/project.py) - bounded, never counted as proved."""
+"""C03 bounded layers (never counted as proved):
+  B  the generated-project shadow (shadows/project.py);
+  B  `--set-version` targets through the real CLI: the announced version, the rewritten occurrences and the
+     config's current_version must be the same text (spellings the pattern's regex accepts: canonical, leading
+     zeros, explicit `-final`)."""
+import os
+import shutil
+import subprocess
+import sys
+import tempfile
+
+from checks import _known
+from checks._src import SRC_ROOT, ensure_src
 from shadows.project import run_shadow
+
+# (pattern, current version, --set-version argument)
+SET_VERSION_CASES = [
+    ("vMAJOR.MINOR.PATCH[-TAG]", "v0.9.1-beta", "v0.9.1"),
+    ("vMAJOR.MINOR.PATCH[-TAG]", "v0.9.1-beta", "v0.09.1"),
+    ("vMAJOR.MINOR.PATCH[-TAG]", "v0.9.1-beta", "v0.10.0-rc"),
+    ("MAJOR.MINOR.PATCH", "1.2.3", "1.2.4"),
+    ("MAJOR.MINOR.PATCH", "1.2.3", "1.02.4"),
+    ("MAJOR.MINOR.PATCH", "1.2.3", "01.3.0"),
+    ("YYYY.BUILD[-TAG]", "2020.1009-beta", "2020.1009"),
+    ("YYYY.BUILD[-TAG]", "2020.1009-beta", "2021.1010-rc"),
+    ("{semver}", "1.2.3", "1.2.4"),
+    ("{semver}", "1.2.3", "1.02.4"),
+]
+
+
+def set_version_case(pattern, current, target):
+    """None, or what disagrees. A rejected --set-version (exit 1, nothing written) is fine."""
+    ensure_src()
+    d = tempfile.mkdtemp(prefix="c03sv_")
+    try:
+        cfg = (
+            f'[bumpver]\ncurrent_version = "{current}"\nversion_pattern = "{pattern}"\ncommit = false\ntag = false\npush = false\n\n'
+            '[bumpver.file_patterns]\n"bumpver.toml" = [\'current_version = "{version}"\']\n"mod.py" = [\'__version__ = "{version}"\']\n'
+        )
+        open(os.path.join(d, "bumpver.toml"), "w").write(cfg)
+        open(os.path.join(d, "mod.py"), "w").write(f'# module\n__version__ = "{current}"\n')
+        env = dict(os.environ, PYTHONPATH=SRC_ROOT)
+        p = subprocess.run([sys.executable, "-m", "bumpver", "update", "--set-version", target], cwd=d, env=env, capture_output=True, text=True)
+        mod = open(os.path.join(d, "mod.py")).read()
+        cfg_after = open(os.path.join(d, "bumpver.toml")).read()
+        if p.returncode != 0:
+            if mod != f'# module\n__version__ = "{current}"\n' or cfg_after != cfg:
+                return f"rejected --set-version {target!r} (exit {p.returncode}) changed files"
+            return None
+        import re
+
+        m = re.search(r"New Version: (\S+)", p.stderr + p.stdout)
+        announced = m.group(1) if m else None
+        written = re.search(r'__version__ = "([^"]*)"', mod).group(1)
+        in_cfg = re.search(r'current_version = "([^"]*)"', cfg_after).group(1)
+        if not (announced == written == in_cfg):
+            cls = "[set_version_noncanonical] " if written == in_cfg and announced == target and written != target else ""
+            return f"{cls}update --set-version {target!r} ({pattern}, from {current!r}): announced {announced!r}, occurrence written as {written!r}, config current_version {in_cfg!r}"
+        return None
+    finally:
+        shutil.rmtree(d, ignore_errors=True)
+
+
+def replay_set_version(pattern, current, target):
+    return set_version_case(pattern, current, target) is None
 
 
 def run(tier="quick", seed=0):
-    return [run_shadow("C03", tier, seed)]
+    out = [run_shadow("C03", tier, seed)]
+    known = {k["witness_class"]: k for k in _known.load("C03")}
+    bad, hits = [], []
+    for case in SET_VERSION_CASES:
+        try:
+            r = set_version_case(*case)
+        except Exception as e:  # noqa
+            r = f"exception {type(e).__name__}: {e}"
+        if r is None:
+            continue
+        cls = r[1 : r.index("]")] if r.startswith("[") else "other"
+        (hits if cls in known else bad).append((case, r, cls))
+    res = dict(
+        name="C03.set_version.announced_written_and_config_text_are_the_same",
+        kind="B",
+        verdict="held" if not bad and not hits else "refuted",
+        cases=len(SET_VERSION_CASES),
+        distinct=len(SET_VERSION_CASES),
+        bound=f"{len(SET_VERSION_CASES)} directed --set-version targets (canonical, leading zeros, tag changes) x 4 pattern families, real CLI in a subprocess",
+        witness=[dict(case=list(c), problem=r) for c, r, _ in (bad or hits)[:3]],
+        observed=(bad or hits)[0][1] if (bad or hits) else None,
+        sample=[list(c) for c in SET_VERSION_CASES[:3]],
+        python_replay=(dict(module="checks.c03", function="replay_set_version", args=list(bad[0][0])) if bad else None),
+    )
+    if hits and not bad:
+        res["known_finding"] = ",".join(sorted({known[c]["id"] for _, _, c in hits}))
+    out.append(res)
+    return out
